@@ -318,6 +318,7 @@ impl Parser {
         let mut word_bound_pos = Position::new(0, 0, 0, 0);
 
         loop {
+            #[cfg(feature = "verif")] crate::verif::tick(401);
             if let Some(x) = self.get_word_bound() {
                 word_bound_pos = x.position;
                 if contains_word_bound {
@@ -426,6 +427,7 @@ impl Parser {
         envs.push(self.get_env_term()?);
 
         loop {
+            #[cfg(feature = "verif")] crate::verif::tick(402);
             if self.expect(TokenKind::RightColCurly) { break; }
             if !self.expect(TokenKind::Comma) {
                 return Err(RuleSyntaxError::ExpectedComma(self.curr_tkn.clone()))
@@ -445,6 +447,7 @@ impl Parser {
 
         let mut envs = Vec::new();
         loop {
+            #[cfg(feature = "verif")] crate::verif::tick(403);
             let x = self.get_envs()?;
             envs.push(x);
             if !self.expect(TokenKind::Comma) {
@@ -582,6 +585,7 @@ impl Parser {
         // returns PARAMS ← '[' ARG (',' ARG)* ']' 
         let mut args = Modifiers::new();
         while self.has_more_tokens() {
+            #[cfg(feature = "verif")] crate::verif::tick(404);
             if self.expect(TokenKind::RightSquare) {
                 break;
             }
@@ -670,6 +674,7 @@ impl Parser {
         self.advance();
 
         while matches!(self.curr_tkn.kind, TokenKind::Diacritic(_)) {
+            #[cfg(feature = "verif")] crate::verif::tick(405);
             let dia = self.eat();
             let d = dia.kind.as_diacritic().unwrap();
             if let Err((mod_index, is_node)) = ipa.check_and_apply_diacritic(&DIACRITS[*d as usize]) {
@@ -768,6 +773,7 @@ impl Parser {
         let mut first_bound: usize = 0;
         let mut second_bound: usize = 0;
         while self.has_more_tokens() {
+            #[cfg(feature = "verif")] crate::verif::tick(406);
             if self.peek_expect(TokenKind::RightBracket) { break; }
             if let Some(x) = self.get_bound()   { segs.push(x); continue; }
             if let Some(x) = self.get_syll()?   { segs.push(x); continue; }
@@ -819,6 +825,7 @@ impl Parser {
         // should probably return SyntaxError::ExpectedRightBracketAtEol
         // bug or feature? ¯\_(ツ)_/¯
         while self.has_more_tokens() {
+            #[cfg(feature = "verif")] crate::verif::tick(407);
             if self.expect(TokenKind::RightCurly) { break; }
             if self.expect(TokenKind::Comma)      { continue; }
             if let Some(x) = self.get_seg()? {
@@ -887,6 +894,7 @@ impl Parser {
         let mut terms = Vec::new();
 
         while self.has_more_tokens() {
+            #[cfg(feature = "verif")] crate::verif::tick(408);
             if self.eat_expect(TokenKind::RightAngle).is_some() { break; }
             if let Some(x) = self.get_seg()? { 
                 terms.push(x);
@@ -950,6 +958,7 @@ impl Parser {
         // returns INP_EL+
         let mut els = Vec::new();
         loop {
+            #[cfg(feature = "verif")] crate::verif::tick(409);
             if let Some(el) = self.eat_expect(TokenKind::Ellipsis) {
                 els.push(Item::new(ParseElement::Ellipsis, el.position));
             } else if let Some(s_bound) = self.get_syll_bound() {
@@ -983,6 +992,7 @@ impl Parser {
         // returns OUT_EL+
         let mut els = Vec::new();
         while let Some(el) = self.get_output_el()? {
+            #[cfg(feature = "verif")] crate::verif::tick(410);
             els.push(el);
         }
         Ok(els)
@@ -1001,6 +1011,7 @@ impl Parser {
         // returns `INP ← INP_TRM  ( ',' INP_TRM )*` where `INP_TRM ← EMP / INP_EL+`
         let mut inputs = Vec::new();
         loop {
+            #[cfg(feature = "verif")] crate::verif::tick(411);
             // Insertion
             if let Some(empty) = self.get_empty() {
                 inputs.push(vec![empty]);
@@ -1040,6 +1051,7 @@ impl Parser {
         // returns `OUT ← OUT_TRM  ( ',' OUT_TRM )*` where `OUT_TRM ← '&' / EMP / OUT_EL+`
         let mut outputs = Vec::new();
         loop {
+            #[cfg(feature = "verif")] crate::verif::tick(412);
             // Metathesis
             if let Some(el) = self.eat_expect(TokenKind::Ampersand) {
                 outputs.push(vec![Item::new(ParseElement::Metathesis, el.position)]);
